@@ -555,7 +555,23 @@ fn bound_digest(start: u64, count: u64) -> u64 {
 }
 
 /// one-shot call, Rust API. Returns (ret, encoded_size, bytes) or Err(panic)
+/// the recorded payload-encoder invocations of one call as the answers token of the `stream` protocol
+/// (`<result>.<emit>.<nbits>.-` joined by `/`, skeleton mode); None if an event is inconsistent
+fn answers_token(events: &[Ev]) -> Option<String> {
+    if events.is_empty() { return Some("-".into()); }
+    let mut v = vec![];
+    for e in events {
+        let nbits = (e.out_size * 8 + e.carry_bits_after as u64) as i64 - e.carry_bits_before as i64;
+        if nbits < 0 { return None; }
+        let emit = e.last_flush_pos_after == e.input_pos || e.site == 2;
+        v.push(format!("{}.{}.{}.-", e.result as u8, emit as u8, nbits));
+    }
+    Some(v.join("/"))
+}
+thread_local! { static LAST_ONESHOT_EVENTS: std::cell::RefCell<Vec<Ev>> = std::cell::RefCell::new(Vec::new()); }
+
 fn oneshot_rust(q: i32, lgwin: i32, input: &[u8], cap: usize) -> Result<(i32, usize, Vec<u8>), String> {
+    let _ = brotli::enc::encode::verif_stream_hook::take();
     let r = catch_unwind(AssertUnwindSafe(|| {
         let mut buf = vec![0xa5u8; cap];
         let mut size = cap;
@@ -564,19 +580,22 @@ fn oneshot_rust(q: i32, lgwin: i32, input: &[u8], cap: usize) -> Result<(i32, us
         let keep = size.min(cap);
         (ret, size, buf[..keep].to_vec())
     }));
-    let _ = brotli::enc::encode::verif_stream_hook::take();
+    let evs = brotli::enc::encode::verif_stream_hook::take();
+    LAST_ONESHOT_EVENTS.with(|x| *x.borrow_mut() = evs);
     r.map_err(|_| "panic".to_string())
 }
 
 /// one-shot call, C ABI; the buffer is followed by a canary region. Returns (ret, size, bytes, canary_intact)
 fn oneshot_c(q: i32, lgwin: i32, input: &[u8], cap: usize) -> (i32, usize, Vec<u8>, bool) {
     const CANARY: usize = 64;
+    let _ = brotli::enc::encode::verif_stream_hook::take();
     let mut buf = vec![0x5au8; cap + CANARY];
     let mut size = cap;
     let ret = unsafe {
         brotli::ffi::compressor::BrotliEncoderCompress(q, lgwin, brotli::ffi::compressor::BrotliEncoderMode::BROTLI_MODE_GENERIC, input.len(), if input.is_empty() { std::ptr::null() } else { input.as_ptr() }, &mut size, buf.as_mut_ptr())
     };
-    let _ = brotli::enc::encode::verif_stream_hook::take();
+    let evs = brotli::enc::encode::verif_stream_hook::take();
+    LAST_ONESHOT_EVENTS.with(|x| *x.borrow_mut() = evs);
     let intact = buf[cap..].iter().all(|&x| x == 0x5a);
     let keep = size.min(cap);
     (ret, size, buf[..keep].to_vec(), intact)
@@ -612,6 +631,9 @@ fn content(kind: u32, n: usize, rng: &mut Rng) -> Vec<u8> {
     }
     v
 }
+
+/// inputs above this length get no `oneshotrun` line (the Lean model keeps the ring content as a list)
+const ONESHOTRUN_MAX_N: usize = 70000;
 
 struct OsCase { q: i32, lgwin: i32, n: usize, kind: u32, gen: Option<u64>, dense: bool }
 
@@ -693,6 +715,18 @@ fn oneshot_case(c: &OsCase, seed: u64, idx: usize, lines: &mut Vec<(String, Stri
             if cap == 0 && ret != 0 { rep.viol("header:c08:zero-buffer-success", "success with an empty buffer", case(cap, api)); }
             // on failure *encoded_size is 0 except for the zero-capacity early return (left untouched = 0)
             lines.push((format!("header oneshot {} {} {}", n, cap, t_tok), format!("{} {} {}", ret, size, kind)));
+            // the same call over the run-level stream model (`BV.Stream.oneshotRun`): the recorded
+            // payload-encoder answers of the stream phase are replayed, everything else — the stream
+            // machine, `total_out`, the fallback decision — is the model's (theorem `oneshot_run_contract`)
+            if api == "rust" && n <= ONESHOTRUN_MAX_N && kind != "other" && (n <= 4096 || (cap + idx) % 10 == 0 || cap == bound || cap + 1 == bound) {
+                let evs = LAST_ONESHOT_EVENTS.with(|x| core::mem::take(&mut *x.borrow_mut()));
+                if evs.len() <= 2000 {
+                    if let Some(tok) = answers_token(&evs) {
+                        lines.push((format!("header oneshotrun {} {} {} {} {}", c.q, c.lgwin, n, cap, tok), format!("{} {} {}", ret, size, kind)));
+                        rep.count("c08.oneshotrun.lines");
+                    }
+                }
+            }
         }
     }
 }
@@ -961,6 +995,104 @@ fn run_c08(args: &Args, corr: &mut Corr, rep: &mut Report) {
     });
     for r in res { merge_rep(rep, r); }
     tick("c08 stream done", &t0);
+    // ---- (e) whole never-flushed histories against the RUN-LEVEL model (`BV.Stream.run`, theorem
+    // `stream_total_le_bound_run`): public API only (set_parameter, PROCESS chunks, FINISH, take_output),
+    // several output schedules. Two correspondence lines per history: the `stream k` skeleton line (every
+    // call's state digest + the `R:` run summary) and `header nfrun` (bytes delivered, input_pos_, bytes
+    // consumed, the advertised bound, the spans of the closed meta-blocks from the hook log).
+    // Oracles: finished, delivered <= bound, every closed span but the last >= 2^14, spans add up to the input.
+    {
+        use crate::stream as st;
+        let mut rcases: Vec<(Cfg, usize, u32, usize, usize)> = vec![];
+        let rns: Vec<usize> = vec![0, 1, 2, 3, 100, 16383, 16384, 16386, 32770, 49153, 65538, 131072 + 2];
+        let rhints: [u64; 3] = [0, 1 << 21, (1u64 << 32) - 1];
+        let mut idx = 0usize;
+        for q in 2..=11 {
+            for flags in 0..16u32 {
+                let (cat, app, magic, lw) = (flags & 1 != 0, flags & 2 != 0, flags & 4 != 0, flags & 8 != 0);
+                for (j, &n) in rns.iter().enumerate() {
+                    idx += 1;
+                    if !thorough && n > 3 && (j + q as usize + flags as usize) % 4 != 0 { continue; }
+                    if q >= 10 && n > 70000 && !thorough { continue; }
+                    let hint = rhints[(j + flags as usize) % 3];
+                    let chunk = match idx % 3 { 0 => usize::MAX / 2, 1 => 1000, _ => 20000 };
+                    rcases.push((Cfg { q, lgwin: if lw { 26 } else if idx % 5 == 0 { 16 } else { 22 }, lw, cat, app, dict: !cat, magic, hint }, n, (idx % 2) as u32, chunk, idx % 3));
+                }
+            }
+        }
+        let nrc = rcases.len();
+        let rcases = std::sync::Arc::new(rcases);
+        let res = par_tasks(nrc, move |i| {
+            let (c, n, kind, chunk, sk) = rcases[i];
+            let mut rep = Report::default();
+            let mut lines: Vec<(String, String)> = vec![];
+            let mut rng = Rng::new(seed ^ 0x2f7e ^ ((i as u64) << 20));
+            let input = content(kind, n, &mut rng);
+            rep.evaluations += 1;
+            let mut cfg = st::Cfg::default();
+            cfg.q = c.q; cfg.lgwin = c.lgwin; cfg.large = c.lw; cfg.catable = c.cat;
+            if c.lw { cfg.sets.push((6, 1)); }
+            cfg.sets.push((1, c.q as u32));
+            cfg.sets.push((2, c.lgwin as u32));
+            if c.app { cfg.sets.push((168, 1)); }
+            if c.cat { cfg.sets.push((167, 1)); }
+            if c.magic { cfg.sets.push((169, 1)); }
+            if c.hint != 0 { cfg.sets.push((5, c.hint as u32)); }
+            let mut reqs: Vec<st::Req> = vec![];
+            let mut pos = 0usize;
+            loop {
+                let end = pos.saturating_add(chunk.max(1)).min(n);
+                if end == n { reqs.push(st::Req { op: st::OP_FINISH, data: input[pos..].to_vec() }); break; }
+                reqs.push(st::Req { op: st::OP_PROCESS, data: input[pos..end].to_vec() });
+                pos = end;
+            }
+            let sched = match sk {
+                0 => st::OutSched::ample(),
+                1 => st::OutSched { caps: vec![4096, 100], take_every: 3, take_sizes: vec![0, 50] },
+                _ => st::OutSched { caps: vec![65536], take_every: 2, take_sizes: vec![1000] },
+            };
+            let case = format!("{{\"quality\":{},\"lgwin\":{},\"large_window\":{},\"catable\":{},\"appendable\":{},\"magic_number\":{},\"size_hint\":\"{}\",\"n\":{},\"content\":{},\"chunk\":{},\"sched\":{},\"seed\":{},\"idx\":{}}}", c.q, c.lgwin, c.lw, c.cat, c.app, c.magic, c.hint, n, kind, chunk.min(1 << 40), sk, seed, i);
+            let ro = st::drive(&cfg, &reqs, &sched, true);
+            if let Some((sig, what)) = &ro.fail { rep.viol(&format!("header:c08:nfrun-failed:{}", sig), what, case.clone()); return (lines, rep); }
+            if !ro.finished { rep.viol("header:c08:nfrun-failed:not-finished", "FINISH request completed but is_finished() is false", case.clone()); return (lines, rep); }
+            let delivered = ro.sess.delivered.len();
+            let ip = ro.sess.enc.input_pos_ as usize;
+            let bound = BrotliEncoderMaxCompressedSize(ip);
+            let mut nd = 0usize;
+            let mut spans: Vec<u64> = vec![];
+            for r in &ro.sess.recs {
+                if let st::Call::Stream { op, .. } = &r.call {
+                    if *op != st::OP_METADATA { nd += r.consumed; }
+                    for e in &r.events {
+                        if e.lf_after == e.input_pos || e.site == 2 { spans.push(if e.site == 2 { e.input_pos } else { e.input_pos - e.lf_before }); }
+                    }
+                }
+            }
+            if ip != n || nd != n { rep.viol("header:c08:nfrun-input-count", &format!("input_pos_ {} / consumed {} after feeding {} bytes", ip, nd, n), case.clone()); }
+            if delivered > bound { rep.viol("header:c08:stream-exceeds-bound", &format!("never-flushed stream of {} input bytes is {} bytes > advertised bound {}", n, delivered, bound), case.clone()); }
+            // the <= 2 bytes of the catable prelude are stored by the first invocation; they belong to the first
+            // closed span only when that invocation also closes the meta-block
+            let ssum = spans.iter().sum::<u64>() as usize;
+            if !(ssum <= n && n <= ssum + if c.cat { 2 } else { 0 }) { rep.viol("header:c08:nfrun-spans", &format!("closed meta-block spans {:?} do not add up to the input {}", spans, n), case.clone()); }
+            for (k, sp) in spans.iter().enumerate() {
+                if k + 1 < spans.len() && *sp < (1 << 14) { rep.viol("header:c08:blocks-hypothesis", &format!("a non-final meta-block spanning only {} bytes without a flush", sp), case.clone()); }
+                if *sp > (1 << 24) { rep.viol("header:c08:metablock-above-2^24", &format!("a meta-block spanning {} bytes", sp), case.clone()); }
+            }
+            rep.nontrivial += 1;
+            rep.count(&format!("c08.nfrun.metablocks.{}", if spans.len() < 4 { spans.len().to_string() } else { "4+".into() }));
+            rep.count(&format!("c08.nfrun.sched.{}", sk));
+            if let Some((ops, ans)) = st::corr_line_mode(&ro.sess, 1) {
+                let toks = ops.strip_prefix("stream k").unwrap_or(&ops).to_string();
+                let sp = if spans.is_empty() { "-".to_string() } else { spans.iter().map(|x| x.to_string()).collect::<Vec<_>>().join(",") };
+                lines.push((format!("header nfrun{}", toks), format!("{} {} {} {} {}", delivered, ip, nd, bound, sp)));
+                lines.push((ops, ans));
+                rep.count("c08.nfrun.lines");
+            } else { rep.count("c08.nfrun.line_too_long"); }
+            (lines, rep)
+        });
+        for (lines, r) in res { for (a, bb) in lines { corr.case(&a, &bb); } merge_rep(rep, r); }
+    }
+    tick("c08 nfrun done", &t0);
 }
 
 pub fn run_cmd(args: &Args) {
